@@ -500,7 +500,7 @@ def gen_piece(rng, ntracks, values, pitch_range, nbars=None, tier="quick", grids
     grid = rng.choice(grids) if grids else rng.choice([2, 4, 6, 6, 12])
     # real music repeats itself: a bar may be a literal repeat of an earlier bar (content of every track and signature),
     # and a piece often lives on two or three note values and velocities
-    p_repeat_bar = rng.choice([0.0, 0.0, 0.3, 0.6])
+    p_repeat_bar = rng.choice([0.0, 0.3, 0.5, 0.7])
     if rng.random() < 0.6:
         values = rng.sample(values, min(len(values), rng.choice([1, 2, 3])))
     vel_palette = [rng.randrange(1, 128) for _ in range(rng.choice([1, 2, 8]))]
